@@ -2,7 +2,7 @@
 (* Family "reset": SetObj prior ; LoadRaw p ; CopyFrom for every conforming object p (payloads under null / unknown included) and prior target content.  Serves C05 C07(from). *)
 EXTENDS Shapes, TLC, Json
 CONSTANTS MCDeep, MCLong
-VARIABLES sh, M, obj, tf, dg, pn, pc, hist, viol, aux
+VARIABLES sh, M, Mi, obj, tf, dg, pn, pc, hist, viol, aux
 MCShapes == AllSessionShapes \o ResetExtraShapes
 MCScript == IF MCLong THEN <<"SetObj", "LoadRaw", "CopyFrom">> ELSE <<"SetObj", "LoadRaw", "CopyFrom">>
 MCProps == {"C05", "C07"}
